@@ -20,6 +20,7 @@ import (
 	"runtime/debug"
 	"strings"
 	"sync"
+	"sync/atomic"
 	"syscall"
 	"testing"
 	"testing/synctest"
@@ -256,6 +257,21 @@ func (w ownDLConn) SetDeadline(t time.Time) error      { w.c.setDL("setdeadline"
 func (w ownDLConn) SetReadDeadline(t time.Time) error  { w.c.setDL("setreaddeadline", t); return nil }
 func (w ownDLConn) SetWriteDeadline(t time.Time) error { w.c.setDL("setwritedeadline", t); return nil }
 
+// failDLConn is a transport without deadlines: the calls fail and change
+// nothing (an ssh channel, a pipe of the application's own).
+type failDLConn struct{ c *Conn }
+
+var errNoDeadlines = errors.New("sim: transport does not support deadlines")
+
+func (w failDLConn) Read(p []byte) (int, error)         { return w.c.Read(p) }
+func (w failDLConn) Write(p []byte) (int, error)        { return w.c.Write(p) }
+func (w failDLConn) Close() error                       { return w.c.Close() }
+func (w failDLConn) LocalAddr() net.Addr                { return w.c.LocalAddr() }
+func (w failDLConn) RemoteAddr() net.Addr               { return w.c.RemoteAddr() }
+func (w failDLConn) SetDeadline(t time.Time) error      { return errNoDeadlines }
+func (w failDLConn) SetReadDeadline(t time.Time) error  { return errNoDeadlines }
+func (w failDLConn) SetWriteDeadline(t time.Time) error { return errNoDeadlines }
+
 func (c *Conn) Close() error {
 	c.mu.Lock()
 	defer c.mu.Unlock()
@@ -313,6 +329,8 @@ type wrapConn struct{ net.Conn }
 
 type scenario struct {
 	CtxKind      int           // 0 background 1 cancel-only 2 with deadline
+	BgKind       int           // kind 0: 0 context.Background() 1 context.TODO() 2 a values-only child of Background 3 context.WithoutCancel of a cancellable parent (none of them can ever end)
+	DLFail       bool          // WrapConn returns a layer whose deadline calls fail and change nothing (a transport without deadlines); only with peers that answer
 	WrapOwn      bool          // WrapConn returns a layer that keeps the deadlines itself (deadline calls on the conn below it change nothing)
 	BigHeader    bool          // Dialer.Header makes the request several times larger than a small WriteBufferSize
 	OwnCtx       bool          // the cancel-only context is the application's own implementation of context.Context (own Done channel), not a standard library type
@@ -336,8 +354,8 @@ type scenario struct {
 }
 
 func (s scenario) String() string {
-	return fmt.Sprintf("debug=%d wrapown=%v bighdr=%v ctx=%d(dl=%v cause=%v own=%v) timeout=%v connect=%v(ignoreCtx=%v) tls=%v(real=%v) statusBody=%v wrap=%v peer=%d respDelay=%v segs=%d gap=%v trailing=%v rbuf=%d segmax=%d",
-		s.Debug, s.WrapOwn, s.BigHeader, s.CtxKind, s.CtxDeadline, s.Cause, s.OwnCtx, s.Timeout, s.ConnectDelay, s.IgnoreCtx, s.TLS, s.RealTLS, s.StatusBody, s.Wrap, s.Peer, s.RespDelay, s.Segs, s.Gap, s.Trailing, s.RBuf, s.SegMax)
+	return fmt.Sprintf("debug=%d wrapown=%v dlfail=%v bighdr=%v ctx=%d/%d(dl=%v cause=%v own=%v) timeout=%v connect=%v(ignoreCtx=%v) tls=%v(real=%v) statusBody=%v wrap=%v peer=%d respDelay=%v segs=%d gap=%v trailing=%v rbuf=%d segmax=%d",
+		s.Debug, s.WrapOwn, s.DLFail, s.BigHeader, s.CtxKind, s.BgKind, s.CtxDeadline, s.Cause, s.OwnCtx, s.Timeout, s.ConnectDelay, s.IgnoreCtx, s.TLS, s.RealTLS, s.StatusBody, s.Wrap, s.Peer, s.RespDelay, s.Segs, s.Gap, s.Trailing, s.RBuf, s.SegMax)
 }
 
 // cancelPlan says when the harness cancels the caller's context.
@@ -431,6 +449,17 @@ func dialOnce(sc scenario, plan cancelPlan, o *outcome) {
 		var ctx context.Context = base
 		cancel := func() {}
 		switch sc.CtxKind {
+		case 0:
+			switch sc.BgKind {
+			case 1:
+				ctx = context.TODO()
+			case 2:
+				ctx = context.WithValue(base, ctxKey{}, "request-42")
+			case 3:
+				parent, stop := context.WithCancel(base)
+				defer stop()
+				ctx = context.WithoutCancel(parent)
+			}
 		case 1:
 			ctx, cancel = context.WithCancel(base)
 			if sc.OwnCtx {
@@ -551,7 +580,7 @@ func dialOnce(sc scenario, plan cancelPlan, o *outcome) {
 				// before or after a non-blocking handshake is up to the Go
 				// scheduler (and, at the very end, to the runtime's choice
 				// between two ready select cases).
-				ended := ctx.Err() != nil || (sc.Timeout > 0 && time.Since(start) >= sc.Timeout)
+				ended := ctx.Err() != nil || (sc.Timeout != 0 && time.Since(start) >= sc.Timeout)
 				if phase == "enter" && plan.Kind != "unforced" && ended {
 					synctest.Wait()
 				}
@@ -578,6 +607,14 @@ func dialOnce(sc scenario, plan cancelPlan, o *outcome) {
 					sc.owned = true
 					sc.mu.Unlock()
 					return ownDLConn{sc}
+				}
+				return c
+			}
+		}
+		if sc.DLFail {
+			d.WrapConn = func(c net.Conn) net.Conn {
+				if sc, ok := c.(*Conn); ok && sc != nil {
+					return failDLConn{sc}
 				}
 				return c
 			}
@@ -673,6 +710,8 @@ func dialOnce(sc scenario, plan cancelPlan, o *outcome) {
 // ---------------------------------------------------------------------------
 // The property
 
+type ctxKey struct{}
+
 // ownCtx is a context.Context that is not one of the standard library's
 // types: contexts derived from it watch its Done channel from a goroutine of
 // their own until they are cancelled.
@@ -723,6 +762,9 @@ func drawScenario(r *eng.Run) scenario {
 	sc.TLS = r.T.Chance(sim.LCfg, 1, 4)
 	sc.Wrap = r.T.Chance(sim.LCfg, 1, 4)
 	sc.WrapOwn = !sc.TLS && !sc.Wrap && r.T.Chance(sim.LCfg, 1, 4)
+	if sc.CtxKind == 0 && r.T.Bool(sim.LCfg) {
+		sc.BgKind = 1 + r.T.Int(sim.LCfg, 3)
+	}
 	sc.RBuf = []int{0, 16, 64}[r.T.Int(sim.LSize, 3)]
 	sc.SegMax = []int{0, 1, 7}[r.T.Int(sim.LSeg, 3)]
 	// Deadlines avoid exact ties with peer events (multiples of 50ms): +-1ms.
@@ -733,6 +775,11 @@ func drawScenario(r *eng.Run) scenario {
 	switch r.T.Int(sim.LCfg, 3) {
 	case 1, 2:
 		sc.Timeout = instants[r.T.Int(sim.LDelay, len(instants))]
+	}
+	if sc.Timeout != 0 && r.T.Chance(sim.LDelay, 1, 10) {
+		// A budget that is already spent (time.Until of an instant that has
+		// passed): the timeout has elapsed before Dial starts.
+		sc.Timeout = -[]time.Duration{1, 25 * ms, 5000 * ms}[r.T.Int(sim.LDelay, 3)]
 	}
 	if sc.TLS && r.T.Bool(sim.LCfg) {
 		// The library's own TLS client against a peer that never answers the
@@ -746,12 +793,97 @@ func drawScenario(r *eng.Run) scenario {
 	if (sc.Peer == 2 || sc.Peer == 3) && sc.CtxKind == 0 && sc.Timeout == 0 {
 		sc.Timeout = 451 * ms
 	}
+	// A transport without deadlines cannot be interrupted: only peers that
+	// answer, and only the clauses that do not rest on deadlines, apply.
+	if !sc.TLS && !sc.Wrap && !sc.WrapOwn && sc.Debug == 0 && sc.Peer <= 1 && !sc.StatusBody && r.T.Chance(sim.LCfg, 1, 6) {
+		sc.DLFail = true
+	}
 	return sc
+}
+
+// realLoopback is the one scenario that leaves the simulator: Dialer.NetDial
+// is nil, so the library dials with its own net.Dialer, which needs a real
+// socket (a real socket inside a synctest bubble stalls the fake clock). A
+// loopback listener accepts and stays silent; Timeout is 20 ms of wall-clock
+// time; the harness cancels the caller's context after 15 s as a safety net.
+// The verdict only distinguishes "the timeout ended the wait" from "only the
+// safety net did" (a factor of 750 apart), nothing of it enters the digests.
+func realLoopback(r *eng.Run) {
+	r.SetEntry("Dialer.Dial/default-net-dialer")
+	kind := r.T.Int(sim.LCfg, 3)
+	ln, err := net.Listen("tcp", "127.0.0.1:0")
+	if err != nil {
+		r.Probe("loopback_not_available")
+		return
+	}
+	defer ln.Close()
+	var mu sync.Mutex
+	var held []net.Conn
+	go func() {
+		for {
+			c, err := ln.Accept()
+			if err != nil {
+				return
+			}
+			mu.Lock()
+			held = append(held, c) // accepted, never answered
+			mu.Unlock()
+		}
+	}()
+	defer func() {
+		mu.Lock()
+		for _, c := range held {
+			c.Close()
+		}
+		mu.Unlock()
+	}()
+	const safety = 15 * time.Second
+	ctx := context.Background()
+	cancel := func() {}
+	switch kind {
+	case 0:
+		ctx, cancel = context.WithCancel(ctx)
+	case 1:
+		ctx, cancel = context.WithDeadline(ctx, time.Now().Add(time.Hour))
+	}
+	var fired atomic.Bool
+	guard := time.AfterFunc(safety, func() { fired.Store(true); cancel() })
+	if kind == 2 {
+		// Nothing to cancel: the watchdog of the worker is the safety net.
+		guard.Stop()
+	}
+	d := ws.Dialer{Timeout: 20 * time.Millisecond}
+	t0 := time.Now()
+	conn, br, _, derr := d.Dial(ctx, "ws://"+ln.Addr().String()+"/chat")
+	el := time.Since(t0)
+	guard.Stop()
+	cancel()
+	if br != nil {
+		ws.PutReader(br)
+	}
+	if conn != nil && derr == nil {
+		conn.Close()
+	}
+	r.Res.Nontrivial = true
+	r.Res.FaultPoints++
+	r.Fault("dial_timeout_on_real_loopback")
+	r.Probe("default_net_dialer_on_loopback")
+	r.Note("C20 real loopback: ctx kind %d, Timeout 20ms, silent peer: err=%v", kind, derr)
+	switch {
+	case derr == nil:
+		r.Failf("success_on_silent_peer", "default net.Dialer on loopback, ctx kind %d: Dial returned a nil error although the peer never answered", kind)
+	case fired.Load() || el >= safety:
+		r.Failf("returned_late", "default net.Dialer on loopback (NetDial == nil), ctx kind %d, Timeout=20ms, silent peer: Dial only returned (%v) when the harness cancelled the context after %v", kind, derr, safety)
+	}
 }
 
 // C20 runs one scenario under every cancellation point.
 func C20(r *eng.Run) {
 	r.SetEntry("Dialer.Dial")
+	if r.T.Chance(sim.LCfg, 1, 250) {
+		realLoopback(r)
+		return
+	}
 	sc := drawScenario(r)
 	r.Note("C20 scenario: %s", sc)
 	r.Res.Nontrivial = true
@@ -761,7 +893,7 @@ func C20(r *eng.Run) {
 		// The process has dialed before: a cancel-only context ended at some
 		// instant of an unrelated handshake (answered, rejected or silent).
 		pre := drawScenario(r)
-		pre.CtxKind, pre.Cause, pre.Timeout, pre.RealTLS, pre.Debug = 1, false, 0, false, 0
+		pre.CtxKind, pre.Cause, pre.Timeout, pre.RealTLS, pre.Debug, pre.DLFail = 1, false, 0, false, 0, false
 		pre.Peer = []int{0, 1, 1, 2}[r.T.Int(sim.LCfg, 4)]
 		ms := time.Millisecond
 		at := []time.Duration{13 * ms, 77 * ms, 173 * ms, 327 * ms, 423 * ms}[r.T.Int(sim.LDelay, 5)]
@@ -913,6 +1045,19 @@ func check(r *eng.Run, sc scenario, plan cancelPlan, o *outcome) {
 			r.Probe("ctx_error_returned")
 		}
 	}
+	// R3': the context was cancelled - and whatever watches it had run - at a
+	// moment when Dial had not returned: the result is an error (the context's,
+	// by R3), also when the handshake I/O itself could still be completed.
+	if o.Err == nil && o.Cancelled && (plan.Kind == "op" || (plan.Kind == "time" && o.CtxEndedAt < o.Returned)) {
+		r.Failf("success_after_context_ended", "%s: the context was cancelled at t=%v, before the handshake I/O finished, and Dial returned a nil error at t=%v; conn calls:%s", tag, o.CtxEndedAt, o.Returned, trace)
+	}
+	if sc.DLFail {
+		r.Probe("transport_without_deadlines")
+		if o.Leak > 0 {
+			r.Failf("watcher_goroutine_alive_after_return", "%s: %d goroutine(s) started by Dial were still alive after it returned", tag, o.Leak)
+		}
+		return // R4 is about connections that honour deadlines
+	}
 	// R4: Dial returns once the context ends or the timeout elapses.
 	bound := time.Duration(-1)
 	if o.CtxEndedAt >= 0 {
@@ -920,9 +1065,12 @@ func check(r *eng.Run, sc scenario, plan cancelPlan, o *outcome) {
 	} else if sc.CtxKind == 2 {
 		bound = sc.CtxDeadline
 	}
-	if sc.Timeout > 0 && (bound < 0 || sc.Timeout < bound) {
-		bound = sc.Timeout
+	if to := max(sc.Timeout, 0); sc.Timeout != 0 && (bound < 0 || to < bound) {
+		bound = to
 		r.Probe("timeout_is_the_bound")
+		if sc.Timeout < 0 {
+			r.Probe("timeout_already_elapsed")
+		}
 	}
 	if sc.IgnoreCtx && bound >= 0 && bound < sc.ConnectDelay {
 		bound = sc.ConnectDelay // a NetDial that ignores its context cannot be interrupted
